@@ -929,3 +929,473 @@ Proof.
       destruct (str_in n_Immutable (k_mro k)); cbn [bind deref py_truthy andb];
       destruct (pystr_eqb c n_Immutable); reflexivity.
 Qed.
+
+(* ================================================================== get_base_info *)
+
+Definition params_al (bp : list (pystr * bool)) : list (pystr * pyval) :=
+  map (fun p => (fst p, v_param (fst p) (snd p))) bp.
+
+Lemma v_params_al bp : v_params bp = PDict (skeys (params_al bp)).
+Proof. reflexivity. Qed.
+
+(* the signature of a class, as the items of __signature__.parameters *)
+Definition sig_items (k : klass) : list (pystr * pyval) :=
+  uni true (k_sig_req k) ++ uni false (k_sig_opt k) ++ kw_entry (k_sig_kwargs k).
+
+Lemma sig_items_params k : uni true (k_sig_req k) ++ uni false (k_sig_opt k) = params_al (sig_params k).
+Proof. unfold sig_params, params_al, uni. rewrite map_app, !map_map. reflexivity. Qed.
+
+(* the dict of the loop: the entries of acc in order, and a "kwargs" entry somewhere iff kw *)
+Definition strip (D : list (pystr * pyval)) : list (pystr * pyval) :=
+  filter (fun p => negb (pystr_eqb (fst p) n_kwargs)) D.
+
+Record rep (acc : list (pystr * bool)) (kw : bool) (D : list (pystr * pyval)) : Prop := {
+  rep_strip : strip D = params_al acc;
+  rep_kw : alist_has D n_kwargs = kw;
+  rep_val : forall v, In (n_kwargs, v) D -> v = v_kwargs_param;
+  rep_nodup : NoDup (map fst D) }.
+
+Lemma alist_has_strip D n : pystr_eqb n n_kwargs = false -> alist_has (strip D) n = alist_has D n.
+Proof.
+  intro Hn. unfold alist_has, strip. induction D as [|[k v] t IH]; [reflexivity|].
+  cbn [filter fst alist_get]. destruct (pystr_eqb k n_kwargs) eqn:E; cbn [negb alist_get].
+  - destruct (pystr_eqb k n) eqn:E2; [|exact IH].
+    apply pystr_eqb_spec in E, E2. subst. rewrite pystr_eqb_refl in Hn. discriminate.
+  - destruct (pystr_eqb k n); [reflexivity|exact IH].
+Qed.
+
+Lemma alist_has_params_al acc n : alist_has (params_al acc) n = alist_has acc n.
+Proof.
+  unfold alist_has, params_al. induction acc as [|[k fl] t IH]; [reflexivity|].
+  cbn [map fst snd alist_get]. destruct (pystr_eqb k n); [reflexivity|exact IH].
+Qed.
+
+Lemma strip_app a b : strip (a ++ b) = strip a ++ strip b.
+Proof. apply filter_app. Qed.
+
+Lemma NoDup_snoc {A} (l : list A) x : NoDup l -> ~ In x l -> NoDup (l ++ [x]).
+Proof.
+  intros H Hx. apply NoDup_rev in H. rewrite <- (rev_involutive (l ++ [x])). apply NoDup_rev.
+  rewrite rev_app_distr. cbn [rev app]. constructor; [|exact H]. intro Hin. apply in_rev in Hin. contradiction.
+Qed.
+
+Lemma getattr_param_default h n fl :
+  dv_getattr h (v_param n fl) (s2p "default") = Ok (if fl then param_empty else PNone).
+Proof. reflexivity. Qed.
+Lemma getattr_param_kind h n fl : dv_getattr h (v_param n fl) (s2p "kind") = Ok K_POK.
+Proof. reflexivity. Qed.
+Lemma getattr_kwparam_default h : dv_getattr h v_kwargs_param (s2p "default") = Ok param_empty.
+Proof. reflexivity. Qed.
+Lemma getattr_kwparam_kind h : dv_getattr h v_kwargs_param (s2p "kind") = Ok K_VKW.
+Proof. reflexivity. Qed.
+
+Lemma setitem_skeys D n v : py_setitem (PDict (skeys D)) (PStr n) v = Ok (PDict (skeys (alist_set D n v))).
+Proof. cbn [py_setitem py_hashable']. rewrite dict_set_skeys. reflexivity. Qed.
+
+Lemma append_names R n : py_list_append (v_names R) (PStr n) = Ok (v_names (R ++ [n])).
+Proof. unfold v_names. cbn [py_list_append]. rewrite map_app. reflexivity. Qed.
+
+Lemma bases_required_snoc acc n fl :
+  bases_required (acc ++ [(n, fl)]) = if fl then bases_required acc ++ [n] else bases_required acc.
+Proof.
+  unfold bases_required. rewrite filter_app, map_app. cbn [filter snd]. destruct fl; cbn [map fst]; [reflexivity|].
+  rewrite app_nil_r. reflexivity.
+Qed.
+
+(* the inner loop of get_base_info (over the parameters of one base's signature), for ANY loop body that does
+   what [Hparam] / [Hkwargs] say on one item; the theorem below shows that the generated body does *)
+Section InnerStep.
+  Variable inner_body : pyval * pyval -> pyval -> res (pyval * pyval).
+  Hypothesis inner_param : forall D R n fl,
+    inner_body (PDict (skeys D), v_names R) (v_item (n, v_param n fl)) =
+    if alist_has D n then Ok (PDict (skeys D), v_names R)
+    else Ok (PDict (skeys (D ++ [(n, v_param n fl)])), v_names (if fl then R ++ [n] else R)).
+  Hypothesis inner_kwargs : forall D R,
+    inner_body (PDict (skeys D), v_names R) (v_item (n_kwargs, v_kwargs_param)) =
+    if alist_has D n_kwargs then Ok (PDict (skeys D), v_names R)
+    else Ok (PDict (skeys (D ++ [(n_kwargs, v_kwargs_param)])), v_names R).
+
+  (* the parameters of one base, then its **kwargs *)
+  Lemma inner_params ps : forall acc kw D,
+    rep acc kw D -> ~ In n_kwargs (map fst ps) ->
+    exists D', rep (merge_params acc ps) kw D' /\
+      dv_foldM inner_body (map v_item (params_al ps)) (PDict (skeys D), v_names (bases_required acc)) =
+      Ok (PDict (skeys D'), v_names (bases_required (merge_params acc ps))).
+  Proof.
+    induction ps as [|[n fl] t IH]; intros acc kw D Hrep Hnk.
+    - exists D. split; [exact Hrep|reflexivity].
+    - cbn [map fst] in Hnk. assert (Hn : pystr_eqb n n_kwargs = false).
+      { apply pystr_eqb_neq. intro; subst. apply Hnk. left. reflexivity. }
+      assert (Hnk' : ~ In n_kwargs (map fst t)) by (intro; apply Hnk; right; assumption).
+      cbn [params_al map fst snd dv_foldM py_foldM]. fold (params_al t). rewrite inner_param.
+      unfold merge_params. cbn [fold_left fst]. fold (merge_params (if alist_has acc n then acc else acc ++ [(n, fl)]) t).
+      rewrite <- (alist_has_strip D n Hn), (rep_strip _ _ _ Hrep), alist_has_params_al.
+      destruct (alist_has acc n) eqn:E; cbn [bind].
+      + apply (IH acc kw D Hrep Hnk').
+      + assert (HnD : ~ In n (map fst D)).
+        { intro Hin. apply alist_has_In in Hin. rewrite <- (alist_has_strip D n Hn), (rep_strip _ _ _ Hrep), alist_has_params_al in Hin. congruence. }
+        assert (Hrep' : rep (acc ++ [(n, fl)]) kw (D ++ [(n, v_param n fl)])).
+        { constructor.
+          - rewrite strip_app, (rep_strip _ _ _ Hrep). unfold strip. cbn [filter fst]. rewrite Hn. cbn [negb].
+            unfold params_al. rewrite map_app. reflexivity.
+          - rewrite alist_has_str_in, map_app, <- (rep_kw _ _ _ Hrep), alist_has_str_in. unfold str_in. rewrite existsb_app.
+            cbn [map fst existsb]. rewrite (pystr_eqb_sym n_kwargs n), Hn. rewrite !orb_false_r. reflexivity.
+          - intros v Hin. apply in_app_or in Hin as [Hin|[Hin|[]]]; [apply (rep_val _ _ _ Hrep); exact Hin|].
+            inversion Hin; subst. rewrite pystr_eqb_refl in Hn. discriminate.
+          - rewrite map_app. apply NoDup_snoc; [apply (rep_nodup _ _ _ Hrep)|exact HnD]. }
+        destruct (IH _ kw _ Hrep' Hnk') as [D' [Hr' Hf]]. exists D'. split; [exact Hr'|].
+        rewrite <- Hf. rewrite bases_required_snoc. reflexivity.
+  Qed.
+
+  Lemma inner_kw kwb acc kw D :
+    rep acc kw D ->
+    exists D', rep acc (kw || kwb) D' /\
+      dv_foldM inner_body (map v_item (kw_entry kwb)) (PDict (skeys D), v_names (bases_required acc)) =
+      Ok (PDict (skeys D'), v_names (bases_required acc)).
+  Proof.
+    intro Hrep. destruct kwb.
+    2:{ exists D. rewrite orb_false_r. split; [exact Hrep|reflexivity]. }
+    cbn [kw_entry map dv_foldM py_foldM]. rewrite inner_kwargs. rewrite (rep_kw _ _ _ Hrep).
+    destruct kw; cbn [bind orb].
+    - exists D. split; [exact Hrep|reflexivity].
+    - exists (D ++ [(n_kwargs, v_kwargs_param)]). split; [|reflexivity].
+      assert (HnD : ~ In n_kwargs (map fst D)).
+      { intro Hin. apply alist_has_In in Hin. rewrite (rep_kw _ _ _ Hrep) in Hin. discriminate. }
+      constructor.
+      + rewrite strip_app, (rep_strip _ _ _ Hrep). unfold strip. cbn [filter fst]. rewrite pystr_eqb_refl. cbn [negb].
+        apply app_nil_r.
+      + rewrite alist_has_str_in, map_app. unfold str_in. rewrite existsb_app. cbn [map fst existsb].
+        rewrite pystr_eqb_refl, orb_true_r. reflexivity.
+      + intros v Hin. apply in_app_or in Hin as [Hin|[Hin|[]]].
+        * exfalso. apply HnD. apply in_map_iff. exists (n_kwargs, v). split; [reflexivity|exact Hin].
+        * inversion Hin. reflexivity.
+      + rewrite map_app. apply NoDup_snoc; [apply (rep_nodup _ _ _ Hrep)|exact HnD].
+  Qed.
+End InnerStep.
+
+Lemma foldM_app {S} (f : S -> pyval -> res S) a b s :
+  dv_foldM f (a ++ b) s = (x <- dv_foldM f a s ;; dv_foldM f b x).
+Proof.
+  unfold dv_foldM. revert s. induction a as [|x t IH]; intro s; [reflexivity|].
+  cbn [app py_foldM]. destruct (f s x); cbn [bind]; [apply IH|reflexivity].
+Qed.
+
+(* removing the first entry of a key *)
+Fixpoint del1 (D : list (pystr * pyval)) (k : pystr) : list (pystr * pyval) :=
+  match D with
+  | [] => []
+  | (k', v) :: t => if pystr_eqb k' k then t else (k', v) :: del1 t k
+  end.
+
+Lemma dict_del_skeys D k : dict_del (skeys D) (PStr k) = skeys (del1 D k).
+Proof.
+  induction D as [|[k' v] t IH]; [reflexivity|]. cbn [skeys map fst snd dict_del del1]. rewrite py_eq_str.
+  destruct (pystr_eqb k' k); [reflexivity|]. cbn [map fst snd]. f_equal. exact IH.
+Qed.
+
+Lemma delitem_skeys D k :
+  dv_delitem (PDict (skeys D)) (PStr k) = if alist_has D k then Ok (PDict (skeys (del1 D k))) else Raise KeyError.
+Proof.
+  unfold dv_delitem, PyOpsVersioned.py_delitem. cbn [py_hashable']. rewrite dict_has_skeys, dict_del_skeys. reflexivity.
+Qed.
+
+Lemma subscript_skeys D k :
+  py_subscript (PDict (skeys D)) (PStr k) = match alist_get D k with Some v => Ok v | None => Raise KeyError end.
+Proof. cbn [py_subscript]. unfold py_dict_getitem. cbn [py_hashable']. rewrite dict_get_skeys. reflexivity. Qed.
+
+Lemma dict_get_skeys_def D k d :
+  dv_dict_get (PDict (skeys D)) (PStr k) d = Ok (match alist_get D k with Some v => v | None => d end).
+Proof. unfold dv_dict_get, PyOpsVersioned.py_dict_get. cbn [py_hashable']. rewrite dict_get_skeys. reflexivity. Qed.
+
+Lemma In_del1 D k x : In x (del1 D k) -> In x D.
+Proof.
+  induction D as [|[k' v] t IH]; cbn [del1]; [tauto|]. destruct (pystr_eqb k' k); cbn [In]; [tauto|].
+  intros [H|H]; [left; exact H|right; apply IH; exact H].
+Qed.
+
+Lemma rep_del acc D : rep acc true D -> rep acc false (del1 D n_kwargs).
+Proof.
+  intros [Hs Hk Hv Hnd]. constructor.
+  - rewrite <- Hs. clear. unfold strip. induction D as [|[k v] t IH]; [reflexivity|]. cbn [del1 filter fst].
+    destruct (pystr_eqb k n_kwargs) eqn:E; cbn [negb filter fst]; [reflexivity|].
+    rewrite E. cbn [negb]. rewrite IH. reflexivity.
+  - clear Hs Hk Hv. unfold alist_has. induction D as [|[k v] t IH]; [reflexivity|].
+    cbn [map fst] in Hnd. inversion Hnd as [|? ? Hk Hd]; subst. cbn [del1].
+    destruct (pystr_eqb k n_kwargs) eqn:E.
+    + apply pystr_eqb_spec in E; subst. destruct (alist_get t n_kwargs) eqn:E2; [|reflexivity].
+      exfalso. apply Hk. apply alist_get_In_fst in E2. exact E2.
+    + cbn [alist_get]. rewrite E. apply IH. exact Hd.
+  - intros v Hin. apply Hv. apply In_del1 in Hin. exact Hin.
+  - clear Hs Hk Hv. induction D as [|[k v] t IH]; [constructor|].
+    cbn [map fst] in Hnd. inversion Hnd as [|? ? Hk Hd]; subst. cbn [del1].
+    destruct (pystr_eqb k n_kwargs); [exact Hd|]. cbn [map fst]. constructor; [|apply IH; exact Hd].
+    intro Hin. apply Hk. apply in_map_iff in Hin as [[k' v'] [E Hin]]. cbn [fst] in E; subst.
+    apply In_del1 in Hin. apply in_map_iff. exists (k, v'). split; [reflexivity|exact Hin].
+Qed.
+
+Lemma rep_nokw acc D : rep acc false D -> D = params_al acc.
+Proof.
+  intros [Hs Hk _ _]. rewrite <- Hs. unfold strip. symmetry.
+  assert (H : forall p, In p D -> pystr_eqb (fst p) n_kwargs = false).
+  { intros [k v] Hin. cbn [fst]. destruct (pystr_eqb k n_kwargs) eqn:E; [|reflexivity].
+    apply pystr_eqb_spec in E; subst. assert (Hh : alist_has D n_kwargs = true).
+    { apply alist_has_In. apply in_map_iff. exists (n_kwargs, v). split; [reflexivity|exact Hin]. }
+    congruence. }
+  clear Hs Hk. induction D as [|p t IH]; [reflexivity|]. cbn [filter]. rewrite (H p (or_introl eq_refl)). cbn [negb].
+  f_equal. apply IH. intros q Hq. apply H. right. exact Hq.
+Qed.
+
+Lemma rep_nil : rep [] false [].
+Proof. constructor; [reflexivity|reflexivity|intros v []|constructor]. Qed.
+
+(* the side conditions on the bases: every base is a class of the environment; it is a subclass of Structure
+   exactly when it is a Structure class (the MRO says what k_is_struct says); no parameter of its signature is
+   called "kwargs"; its own dict does not use the additional-properties keys otherwise than the model says *)
+Definition base_ok (g : genv) (extra : pystr -> list (pystr * pyval)) (b : pystr) : bool :=
+  match find_klass g b with
+  | Some kb => Bool.eqb (k_is_struct kb) (str_in n_Structure (k_mro kb)) &&
+               negb (str_in n_kwargs (k_sig_req kb ++ k_sig_opt kb)) && extra_ok (extra b)
+  | None => false
+  end.
+
+Definition bases_ok (g : genv) (extra : pystr -> list (pystr * pyval)) (bases : list pystr) : bool :=
+  forallb (base_ok g extra) bases && negb (is_some (find_klass g n_TypedPyDefaults)).
+
+Section BaseInfo.
+  Variable gd : guards.
+  Variable g : genv.
+  Variable extra : pystr -> list (pystr * pyval).
+  Variable so : set_order.
+  Notation hp := (genv_heap gd g extra).
+  Hypothesis Hdef : find_klass g n_TypedPyDefaults = None.
+
+  (* base_info without the final test that no **kwargs is left over *)
+  Fixpoint base_info_raw (bases : list pystr) (acc : list (pystr * bool)) (kw : bool)
+    : res (list (pystr * bool) * bool) :=
+    match bases with
+    | [] => Ok (acc, kw)
+    | b :: t =>
+        match find_klass g b with
+        | None => Raise Unmodelled
+        | Some kb =>
+            if negb (k_is_struct kb) || pystr_eqb b n_Structure then base_info_raw t acc kw
+            else
+              let acc' := merge_params acc (sig_params kb) in
+              let kw' := kw || k_sig_kwargs kb in
+              let addl := match k_additional kb with Some x => x | None => gd_additional_default gd end in
+              if addl then (if kw' then base_info_raw t acc' false else Raise KeyError)
+              else base_info_raw t acc' kw'
+        end
+    end.
+
+  Lemma base_info_raw_spec bases : forall acc kw,
+    base_info gd g bases acc kw =
+    match base_info_raw bases acc kw with
+    | Ok (acc', kw') => if kw' then Raise Unmodelled else Ok acc'
+    | Raise x => Raise x
+    end.
+  Proof.
+    induction bases as [|b t IH]; intros acc kw; [reflexivity|].
+    cbn [base_info base_info_raw]. destruct (find_klass g b) as [kb|]; [|reflexivity].
+    destruct (negb (k_is_struct kb) || pystr_eqb b n_Structure); [apply IH|].
+    cbv zeta. destruct (match k_additional kb with Some x => x | None => gd_additional_default gd end).
+    - destruct (kw || k_sig_kwargs kb); [apply IH|reflexivity].
+    - apply IH.
+  Qed.
+
+  (* the classes the loop looks at *)
+  Definition keep (b : pystr) : bool :=
+    match find_klass g b with
+    | Some kb => k_is_struct kb && negb (pystr_eqb b n_Structure)
+    | None => false
+    end.
+
+  Lemma base_info_raw_filter bases : forallb (base_ok g extra) bases = true ->
+    forall acc kw, base_info_raw bases acc kw = base_info_raw (filter keep bases) acc kw.
+  Proof.
+    induction bases as [|b t IH]; intros Hok acc kw; [reflexivity|].
+    cbn [forallb] in Hok. apply andb_true_iff in Hok as [Hb Ht]. unfold base_ok in Hb.
+    destruct (find_klass g b) as [kb|] eqn:Hk; [|discriminate].
+    cbn [filter]. unfold keep at 1. rewrite Hk. cbn [base_info_raw]. rewrite Hk.
+    destruct (k_is_struct kb) eqn:Es; cbn [negb orb andb]; [|apply IH; exact Ht].
+    destruct (pystr_eqb b n_Structure) eqn:Eb; cbn [negb]; [apply IH; exact Ht|].
+    cbn [base_info_raw]. rewrite Hk, Eb, Es. cbn [negb orb]. cbv zeta.
+    destruct (match k_additional kb with Some x => x | None => gd_additional_default gd end).
+    - destruct (kw || k_sig_kwargs kb); [apply IH; exact Ht|reflexivity].
+    - apply IH; exact Ht.
+  Qed.
+
+  (* the comprehension that selects the Structure bases *)
+  Lemma select_base b : base_ok g extra b = true ->
+    (c <- (py_and (obj_issubclass hp (ref b) (ref (s2p "Structure"))) (fun _ => ((dv_is_not (ref b) (ref (s2p "Structure")))))) ;;
+     if c then (Ok (Some (ref b))) else Ok None) = Ok (if keep b then Some (ref b) else None).
+  Proof.
+    intro Hb. unfold base_ok in Hb. destruct (find_klass g b) as [kb|] eqn:Hk; [|discriminate].
+    apply andb_true_iff in Hb as [Hb _]. apply andb_true_iff in Hb as [Hb _]. apply eqb_prop in Hb.
+    rewrite (heap_issubclass gd g extra b kb _ Hk). change (s2p "Structure") with n_Structure. rewrite <- Hb.
+    unfold keep. rewrite Hk. unfold dv_is_not, dv_is. rewrite !is_ref_ref. cbn [py_and bind].
+    destruct (k_is_struct kb); cbn [bind andb]; [|reflexivity]. destruct (pystr_eqb b n_Structure); reflexivity.
+  Qed.
+End BaseInfo.
+
+Lemma comp_refs (F : pyval -> res (option pyval)) (p : pystr -> bool) l :
+  (forall b, In b l -> F (ref b) = Ok (if p b then Some (ref b) else None)) ->
+  dv_comp F (v_refs l) = Ok (v_refs (filter p l)).
+Proof.
+  unfold dv_comp, v_refs. induction l as [|x t IH]; intro H; [reflexivity|].
+  cbn [map PyOpsFields.filterM filter]. rewrite (H x (or_introl eq_refl)). cbn [bind].
+  rewrite IH by (intros b Hb; apply H; right; exact Hb). cbn [bind]. destruct (p x); reflexivity.
+Qed.
+
+Section HeapReads.
+  Variable gd : guards.
+  Variable g : genv.
+  Variable extra : pystr -> list (pystr * pyval).
+  Notation hp := (genv_heap gd g extra).
+
+  Lemma heap_signature b kb : find_klass g b = Some kb ->
+    dv_getattr hp (ref b) (s2p "__signature__") = Ok (v_sig (k_sig_req kb) (k_sig_opt kb) (k_sig_kwargs kb)).
+  Proof.
+    intro Hk. unfold ref. cbn [dv_getattr obj_getattr]. rewrite pystr_eqb_refl. unfold genv_heap. rewrite Hk. reflexivity.
+  Qed.
+
+  Lemma heap_class_dict b kb : find_klass g b = Some kb ->
+    dv_getattr hp (ref b) (s2p "__dict__") = Ok (PDict (skeys (class_dict kb (extra b)))).
+  Proof.
+    intro Hk. unfold ref. cbn [dv_getattr obj_getattr]. rewrite pystr_eqb_refl. unfold genv_heap. rewrite Hk. reflexivity.
+  Qed.
+
+  Lemma heap_mro b kb : find_klass g b = Some kb ->
+    dv_getattr hp (ref b) (s2p "mro()") = Ok (PList (v_refs (k_mro kb))).
+  Proof.
+    intro Hk. unfold ref. cbn [dv_getattr obj_getattr]. rewrite pystr_eqb_refl. unfold genv_heap. rewrite Hk. reflexivity.
+  Qed.
+
+  Lemma heap_addl_default : find_klass g n_TypedPyDefaults = None ->
+    dv_getattr hp (ref (s2p "TypedPyDefaults")) (s2p "additional_properties_default") = Ok (PBool (gd_additional_default gd)).
+  Proof.
+    intro Hd. unfold ref. cbn [dv_getattr obj_getattr]. rewrite pystr_eqb_refl. unfold genv_heap.
+    change (s2p "TypedPyDefaults") with n_TypedPyDefaults. rewrite Hd, pystr_eqb_refl. reflexivity.
+  Qed.
+
+  Lemma sig_parameters h req opt kw :
+    dv_getattr h (v_sig req opt kw) (s2p "parameters") = Ok (PDict (skeys (uni true req ++ uni false opt ++ kw_entry kw))).
+  Proof. reflexivity. Qed.
+
+  Lemma class_dict_old kb ex d : extra_ok ex = true ->
+    dv_dict_get (PDict (skeys (class_dict kb ex))) (PStr (s2p "_additionalProperties")) d = Ok d.
+  Proof.
+    intro He. unfold extra_ok in He. apply andb_true_iff in He as [_ H2]. apply negb_true_iff in H2.
+    unfold alist_has in H2. rewrite dict_get_skeys_def. change (s2p "_additionalProperties") with n_addl_old.
+    unfold class_dict. destruct (k_additional kb) as [x|]; cbn [app alist_get].
+    - change (pystr_eqb n_addl n_addl_old) with false. cbv iota. destruct (alist_get ex n_addl_old); [discriminate|reflexivity].
+    - destruct (alist_get ex n_addl_old); [discriminate|reflexivity].
+  Qed.
+
+  Lemma class_dict_addl kb ex d : extra_ok ex = true ->
+    dv_dict_get (PDict (skeys (class_dict kb ex))) (PStr (s2p "_additional_properties")) d =
+    Ok (match k_additional kb with Some x => PBool x | None => d end).
+  Proof.
+    intro He. unfold extra_ok in He. apply andb_true_iff in He as [H1 _]. apply negb_true_iff in H1.
+    unfold alist_has in H1. rewrite dict_get_skeys_def. change (s2p "_additional_properties") with n_addl.
+    unfold class_dict. destruct (k_additional kb) as [x|]; cbn [app alist_get].
+    - rewrite pystr_eqb_refl. reflexivity.
+    - destruct (alist_get ex n_addl); [discriminate|reflexivity].
+  Qed.
+End HeapReads.
+
+(* get_base_info(bases) on the classes of the environment = the model's [base_info]: the same parameters in the
+   same order with the same required ones, or the same exception -- whenever the model does not decline *)
+Theorem get_base_info_src so X gd g extra bases r :
+  bases_ok g extra bases = true ->
+  base_info gd g bases [] false = r -> r <> Raise Unmodelled ->
+  DefineSrc.get_base_info so X (genv_heap gd g extra) (PTuple (v_refs bases)) =
+  match r with
+  | Ok bp => Ok (PTuple [v_params bp; v_names (bases_required bp)])
+  | Raise x => Raise x
+  end.
+Proof.
+  intros Hok Hr Hnu. unfold bases_ok in Hok. apply andb_true_iff in Hok as [Hbs Hdef].
+  apply negb_true_iff in Hdef. assert (Hd : find_klass g n_TypedPyDefaults = None) by (destruct (find_klass g n_TypedPyDefaults); [discriminate|reflexivity]).
+  clear Hdef.
+  unfold DefineSrc.get_base_info. cbv zeta. rewrite globals_Structure. cbn [bind]. rewrite deref_tuple. cbn [dv_iter bind].
+  rewrite (comp_refs _ (keep g)).
+  2:{ intros b Hb. cbn [bind]. apply select_base. rewrite forallb_forall in Hbs. apply Hbs. exact Hb. }
+  cbn [bind]. rewrite deref_list. cbn [dv_iter bind].
+  match goal with |- context [@dv_foldM ?S ?F] => set (OUT := F) end.
+  assert (Hloop : forall bs, (forall b, In b bs -> base_ok g extra b = true /\ keep g b = true) ->
+            forall acc kw D, rep acc kw D ->
+            match base_info_raw gd g bs acc kw with
+            | Ok (acc', kw') =>
+                exists D', rep acc' kw' D' /\
+                  dv_foldM OUT (v_refs bs) (PDict (skeys D), v_names (bases_required acc)) =
+                  Ok (PDict (skeys D'), v_names (bases_required acc'))
+            | Raise x => dv_foldM OUT (v_refs bs) (PDict (skeys D), v_names (bases_required acc)) = Raise x
+            end).
+  { induction bs as [|b t IH]; intros Hbs' acc kw D Hrep.
+    - cbn [base_info_raw]. exists D. split; [exact Hrep|reflexivity].
+    - destruct (Hbs' b (or_introl eq_refl)) as [Hbok Hkeep].
+      assert (Ht : forall b0, In b0 t -> base_ok g extra b0 = true /\ keep g b0 = true) by (intros b0 Hb0; apply Hbs'; right; exact Hb0).
+      unfold base_ok in Hbok. unfold keep in Hkeep. cbn [base_info_raw].
+      destruct (find_klass g b) as [kb|] eqn:Hk; [|discriminate].
+      apply andb_true_iff in Hkeep as [Hks Hns]. rewrite Hks. apply negb_true_iff in Hns. rewrite Hns. cbn [negb orb]. cbv zeta.
+      apply andb_true_iff in Hbok as [Hbok Hex]. apply andb_true_iff in Hbok as [_ Hnk]. apply negb_true_iff in Hnk.
+      cbn [v_refs map]. fold (v_refs t). unfold dv_foldM at 1 2. cbn [py_foldM]. fold (@dv_foldM (pyval * pyval)).
+      unfold OUT at 1 3. cbv beta iota. cbn [bind].
+      rewrite (heap_signature gd g extra b kb Hk). cbn [bind]. rewrite sig_parameters. cbn [bind].
+      rewrite deref_dict, items_skeys. cbn [bind]. rewrite deref_view, iter_items_view. cbn [bind].
+      rewrite app_assoc, sig_items_params, map_app, foldM_app.
+      match goal with |- context [@dv_foldM _ ?F2 (map v_item (params_al _))] => set (IN := F2) end.
+      assert (Hparam : forall D R n fl,
+                 IN (PDict (skeys D), v_names R) (v_item (n, v_param n fl)) =
+                 if alist_has D n then Ok (PDict (skeys D), v_names R)
+                 else Ok (PDict (skeys (D ++ [(n, v_param n fl)])), v_names (if fl then R ++ [n] else R))).
+      { intros D0 R n fl. unfold IN, v_item. cbn [fst snd]. unfold py_unpack. cbn [py_iter_items bind length Nat.eqb].
+        rewrite in_skeys. cbn [py_not bind]. destruct (alist_has D0 n) eqn:E; cbn [negb bind]; [reflexivity|].
+        rewrite getattr_param_default, getattr_param_kind, attr_VKW. cbn [py_and bind].
+        rewrite setitem_skeys, alist_set_absent by (intro Hin; apply alist_has_In in Hin; congruence).
+        destruct fl; cbn [py_is_not_none py_is_none negb bind].
+        - replace (py_ne K_POK K_VKW) with (@Ok bool true) by reflexivity. cbn [bind]. rewrite append_names. reflexivity.
+        - reflexivity. }
+      assert (Hkwargs : forall D R,
+                 IN (PDict (skeys D), v_names R) (v_item (n_kwargs, v_kwargs_param)) =
+                 if alist_has D n_kwargs then Ok (PDict (skeys D), v_names R)
+                 else Ok (PDict (skeys (D ++ [(n_kwargs, v_kwargs_param)])), v_names R)).
+      { intros D0 R. unfold IN, v_item. cbn [fst snd]. unfold py_unpack. cbn [py_iter_items bind length Nat.eqb].
+        rewrite in_skeys. cbn [py_not bind]. destruct (alist_has D0 n_kwargs) eqn:E; cbn [negb bind]; [reflexivity|].
+        rewrite getattr_kwparam_default, getattr_kwparam_kind, attr_VKW. cbn [py_and bind py_is_not_none py_is_none negb].
+        replace (py_ne K_VKW K_VKW) with (@Ok bool false) by reflexivity. cbn [bind].
+        rewrite setitem_skeys, alist_set_absent by (intro Hin; apply alist_has_In in Hin; congruence). reflexivity. }
+      assert (Hnk' : ~ In n_kwargs (map fst (sig_params kb))).
+      { unfold sig_params. rewrite map_app, !map_map. cbn [fst]. rewrite !map_id. intro Hin. apply str_in_In in Hin. congruence. }
+      destruct (inner_params IN Hparam (sig_params kb) acc kw D Hrep Hnk') as [D1 [Hr1 Hf1]]. rewrite Hf1. cbn [bind].
+      destruct (inner_kw IN Hkwargs (k_sig_kwargs kb) _ _ _ Hr1) as [D2 [Hr2 Hf2]]. rewrite Hf2. cbn [bind]. cbv beta iota.
+      rewrite (heap_class_dict gd g extra b kb Hk), (heap_addl_default gd g extra Hd). cbn [bind]. rewrite !deref_dict.
+      rewrite (class_dict_old kb (extra b) _ Hex). cbn [bind].
+      rewrite ?deref_dict. rewrite (class_dict_addl kb (extra b) _ Hex). cbn [bind].
+      set (acc' := merge_params acc (sig_params kb)) in *. set (kw' := kw || k_sig_kwargs kb) in *.
+      replace (deref (genv_heap gd g extra) match k_additional kb with Some x => PBool x | None => PBool (gd_additional_default gd) end)
+        with (PBool (match k_additional kb with Some x => x | None => gd_additional_default gd end))
+        by (destruct (k_additional kb); reflexivity).
+      destruct (match k_additional kb with Some x => x | None => gd_additional_default gd end); cbn [py_truthy py_and bind].
+      + rewrite subscript_skeys. change (s2p "kwargs") with n_kwargs. pose proof (rep_kw _ _ _ Hr2) as Hkw2. unfold alist_has in Hkw2.
+        destruct (alist_get D2 n_kwargs) as [v|] eqn:Eg.
+        * subst kw'. rewrite <- Hkw2. pose proof (rep_val _ _ _ Hr2 v (alist_get_In _ _ _ Eg)) as Ev. subst v.
+          cbn [bind]. rewrite getattr_kwparam_kind, attr_VKW. cbn [bind].
+          replace (py_eqv K_VKW K_VKW) with (@Ok bool true) by reflexivity. cbn [bind].
+          rewrite delitem_skeys. unfold alist_has. rewrite Eg. cbn [bind].
+          assert (Hr3 : rep acc' false (del1 D2 n_kwargs)).
+          { apply rep_del. rewrite <- Hkw2 in Hr2. exact Hr2. }
+          specialize (IH Ht acc' false _ Hr3). exact IH.
+        * subst kw'. rewrite <- Hkw2. reflexivity.
+      + specialize (IH Ht acc' kw' _ Hr2). exact IH. }
+  rewrite base_info_raw_spec, (base_info_raw_filter gd g extra bases Hbs) in Hr.
+  assert (Hflt : forall b, In b (filter (keep g) bases) -> base_ok g extra b = true /\ keep g b = true).
+  { intros b Hb. apply filter_In in Hb as [Hb Hkp]. split; [|exact Hkp]. rewrite forallb_forall in Hbs. apply Hbs. exact Hb. }
+  specialize (Hloop _ Hflt [] false [] rep_nil).
+  change (PDict []) with (PDict (skeys [])). change (PList []) with (v_names (bases_required [])).
+  destruct (base_info_raw gd g (filter (keep g) bases) [] false) as [[acc' kw']|x].
+  - destruct Hloop as [D' [Hrep Hf]]. rewrite Hf. cbn [bind]. destruct kw'; [subst r; exfalso; apply Hnu; reflexivity|].
+    subst r. rewrite (rep_nokw _ _ Hrep). reflexivity.
+  - rewrite Hloop. subst r. reflexivity.
+Qed.
